@@ -32,6 +32,7 @@ NoIns == BaseTx("none", NoAddr)
 (* malformed DKG payloads name one fixed eon and one fixed peer: the parse error comes first *)
 BadEon == CHOOSE e \in Eons : \A f \in Eons : e <= f
 BadPeer(s) == CHOOSE r \in Addrs : r # s
+TwoOthers(s) == LET r == BadPeer(s) q == CHOOSE x \in Addrs : x # s /\ x # r IN <<r, q>>
 
 AlphabetSet ==
     (IF "vote" \in Kinds THEN
@@ -49,11 +50,15 @@ AlphabetSet ==
     (IF "dkgmsg" \in Kinds THEN
         {Op("tx", [BaseTx("commit", s) EXCEPT !.eon = e, !.gm = 2], "fresh") : s \in Addrs, e \in Eons} \cup
         {Op("tx", [BaseTx(k, s) EXCEPT !.eon = e, !.to = <<r>>], "fresh") :
-            k \in {"eval", "acc", "apol"}, s \in Addrs, r \in Addrs, e \in Eons}
+            k \in {"eval", "acc", "apol"}, s \in Addrs, r \in Addrs, e \in Eons} \cup
+        (* two-element lists, and a list naming one address twice next to another one *)
+        {Op("tx", [BaseTx("acc", s) EXCEPT !.eon = BadEon, !.to = <<r, BadPeer(r)>>], "fresh") : s \in Addrs, r \in Addrs} \cup
+        {Op("tx", [BaseTx("acc", s) EXCEPT !.eon = BadEon, !.to = TwoOthers(s), !.bad = "dupAddr"], "fresh") : s \in Addrs}
      ELSE {}) \cup
     (IF "bad" \in Kinds THEN
         (* gm selects one of the undecodable byte-string variants of the concretiser *)
-        {Op("tx", [BaseTx("garbage", NoAddr) EXCEPT !.gm = v], "fresh") : v \in 0..9} \cup
+        {Op("tx", [BaseTx("garbage", NoAddr) EXCEPT !.gm = v], "fresh") : v \in 0..13} \cup
+        {Op("tx", [BaseTx("forged", s) EXCEPT !.cfg = Cands[1]], "forged") : s \in Addrs} \cup
         {Op("tx", BaseTx(k, s), "fresh") : k \in {"wrongchain", "nopayload"}, s \in Addrs} \cup
         (* every structural defect of every payload type (app/messages.go, batchconfig.go, deliverCheckIn) *)
         {Op("tx", [BaseTx("vote", s) EXCEPT !.cfg = Cands[1], !.bad = d], "fresh") : s \in Addrs, d \in {"dupAddr", "badAddrLen"}} \cup
@@ -63,6 +68,12 @@ AlphabetSet ==
         {Op("tx", [BaseTx("acc", s) EXCEPT !.eon = BadEon, !.to = <<BadPeer(s)>>, !.bad = d], "fresh") :
             s \in Addrs, d \in {"dupAddr", "badAddrLen"}} \cup
         {Op("tx", [BaseTx("commit", s) EXCEPT !.eon = BadEon, !.gm = 1, !.bad = "badPoint"], "fresh") : s \in Addrs}
+     ELSE {}) \cup
+    (IF "badvote" \in Kinds THEN
+        {Op("tx", [BaseTx("vote", s) EXCEPT !.cfg = Cands[1], !.bad = d], "fresh") : s \in Addrs, d \in {"dupAddr", "badAddrLen"}}
+     ELSE {}) \cup
+    (IF "badcheckin" \in Kinds THEN
+        {Op("tx", [BaseTx("checkin", s) EXCEPT !.key = k, !.bad = d], "fresh") : s \in Addrs, k \in CheckKeys, d \in {"badValKey", "badEncKey"}}
      ELSE {}) \cup
     (IF "replay" \in Kinds THEN
         {Op("tx", [BaseTx("seen", s) EXCEPT !.b = b], "replay") : s \in Addrs, b \in SeenBlocks}
@@ -83,7 +94,7 @@ WithNonce(s, o) ==
     IF o.tx.s = NoAddr THEN o.tx
     ELSE [o.tx EXCEPT !.n = IF o.rn = "replay" THEN Len(s.nonces[o.tx.s]) - 1 ELSE Len(s.nonces[o.tx.s])]
 
-Enabled(s, o) == o.rn = "replay" => Len(s.nonces[o.tx.s]) > 0
+Enabled(s, o) == o.rn \in {"replay", "forged"} => Len(s.nonces[o.tx.s]) > 0
 
 (* the exploration bound is a function of the application state (ops that were executed and
    blocks that were ended), not of the hidden history, so that the set of explored states does
